@@ -65,6 +65,16 @@ def main():
              "kind_free_text": "syntax-directed path/trace enumeration per function (must-call, ordering, exactly-once, guard dominance), interprocedural by inlining resolved callees"},
             {"name": "indicators", "path": "vlib/indic.py", "serves_properties": ["C13", "C14", "C15"],
              "kind_free_text": "dependence (lead/back) abstract interpretation of numpy/numba indicator kernels"},
+            {"name": "indicator-ranges", "path": "vlib/indic_range.py", "serves_properties": ["C15"],
+             "kind_free_text": "interval abstract interpretation, order prover and dimensional analysis over the extracted expression DAGs (ranges, band order, homogeneity)"},
+            {"name": "effects", "path": "vlib/purity.py", "serves_properties": ["C13", "C14", "C15", "C16", "C19"],
+             "kind_free_text": "may-alias / effect analysis over a call graph: in-place modification of the caller's array, stores into module-level state, memo keys that are projections of their inputs"},
+            {"name": "memo-invalidation", "path": "vlib/memo.py", "serves_properties": ["C03", "C04", "C05", "C06", "C07", "C09", "C18"],
+             "kind_free_text": "per-class invalidation completeness of memo and derived fields: every writer of what a memo was computed from also writes the memo"},
+            {"name": "index-flow", "path": "vlib/idxflow.py", "serves_properties": ["C01", "C07"],
+             "kind_free_text": "interprocedural affine index / provenance analysis of the simulators with Fourier-Motzkin discharge of bounds"},
+            {"name": "mini-sessions", "path": "vlib/minisession.py", "serves_properties": ["C01", "C02", "C03", "C05", "C06", "C07", "C12", "C16"],
+             "kind_free_text": "both simulator functions interpreted whole on small symbolic sessions with recorders for matcher, stores and strategies"},
         ],
         "checks": checks,
         "not_applicable": na,
